@@ -3,7 +3,9 @@ package main
 // C30 — Sequence numbers.  (1) deterministic witnesses of the recorded defect (a failed lease
 // update leaves seq.next/seq.leased set), (2) sequential runs of GetSequence / Next / Release /
 // re-open / crash-copy over 1-4 objects and 1-2 keys, every result compared with the Coq model
-// (coq/B/Sequence.v via corr/CorrC30.v), (3) a concurrent stress (oracle only).
+// (coq/B/Sequence.v via corr/CorrC30.v), (3) a concurrent stress (oracle only; calls on one object
+// serialised by the harness), (4) c30conc.go: concurrent calls on ONE object — deterministic
+// Release/Next interleavings through a commit hook (compared with the model) and a Next/Release stress.
 // Property oracle (no model involved): no number is returned twice for a key; the numbers of one
 // object are strictly increasing.
 
@@ -626,6 +628,11 @@ func runC30(c *Ctx) error {
 		}
 		defer os.RemoveAll(base)
 	}
+	t0 := time.Now()
+	lap := func(phase string) { // wall time per phase, into the evidence
+		c.Extra["seconds_"+phase] = float64(int(time.Since(t0).Seconds()*10)) / 10
+		t0 = time.Now()
+	}
 	if err := c30WitnessBlocked(c, base); err != nil {
 		return err
 	}
@@ -637,11 +644,30 @@ func runC30(c *Ctx) error {
 			return err
 		}
 	}
+	lap("witnesses_and_sequential")
+	// concurrent histories on one object: Release parked in its commit / running next to Next (c30conc.go)
+	hook := &c30Hook{}
+	hook.install()
+	for i, nDet := 0, 6+c.N/100; i < nDet; i++ {
+		if err := c30DetRelease(c, base, i, hook); err != nil {
+			badger.VerifSetController(nil)
+			return err
+		}
+	}
+	badger.VerifSetController(nil)
+	lap("deterministic_release_windows")
+	for i, nCR := 0, 6+c.N/50; i < nCR; i++ {
+		if err := c30StressRelease(c, base, i); err != nil {
+			return err
+		}
+	}
+	lap("stress_next_release")
 	nStress := 4 + c.N/25
 	for r := 0; r < nStress; r++ {
 		if err := c30Stress(c, base, r, r%2 == 0); err != nil {
 			return err
 		}
 	}
+	lap("stress_serialised")
 	return nil
 }
